@@ -63,12 +63,21 @@ AesOne(e, r, which) ==
 AesViol(e) == AesOne(e, e.got.fresh, "fresh-buffer") \cup AesOne(e, e.got.reused, "reused-buffer")
               \cup (IF Has(e.got.fresh, "iv") /\ Has(e.got.reused, "iv")
                     THEN Check("C03", "iv-fresh", e.got.fresh.iv # e.got.reused.iv, [layer |-> "AES128CBC", class |-> "two-serialisations"]) ELSE {})
+AesSeqViol(e) ==
+  LET c == [layer |-> "AES128CBC", class |-> "decode-sequence"] IN
+  UNION { LET r == e.got[i] IN
+          Check("C05", "decoder-total-no-panic", ~Has(r, "panic"), c)
+          \cup Check("C08", "aes-decode-returns-original-payload-on-a-used-layer",
+                     ~Has(r, "panic") /\ ~r.err /\ Has(r, "payload") /\ r.payload = e.packets[i].payload, c)
+          : i \in 1..Len(e.got) }
+  \cup Check("C08", "aes-decode-returns-original-payload-on-a-used-layer", Len(e.got) = Len(e.packets), c)
 NewViol == LET e == Ev IN
   IF Has(e, "harnessError") THEN Check("HARNESS", "vector", FALSE, [layer |-> "?", class |-> "?"])
   ELSE IF e.kind = "decode" THEN DecodeViol(e)
   ELSE IF e.kind = "reuse" THEN ReuseViol(e)
   ELSE IF e.kind = "serialize" THEN SerViol(e)
   ELSE IF e.kind = "aes" THEN AesViol(e)
+  ELSE IF e.kind = "aesseq" THEN AesSeqViol(e)
   ELSE IF e.kind = "func" THEN Check("C05", "function-no-panic", ~Has(e.got, "panic"), Ctx(e))
                                \cup (IF Has(e.got, "panic") THEN Check(e.prop, "agrees-with-mathematical-definition", FALSE, Ctx(e))
                                      ELSE Check(e.prop, "agrees-with-mathematical-definition", Agrees(e.got, e.exp), Ctx(e)))
